@@ -5,6 +5,9 @@ exit 1  ``VIOLATION property=<id> replay=<path>``
 exit 2  ``ANALYSIS-ERROR`` - anchor vanished / instance floor not met / unknown idiom
 """
 import argparse
+import warnings
+
+warnings.filterwarnings("ignore", category=SyntaxWarning)   # invalid escapes in the analysed sources' docstrings
 import importlib
 import json
 import os
